@@ -17,6 +17,12 @@
 //                   EDGE k (node kind)*k                     (id = order; kinds as above, first/last = 4)
 //                   MOVE dim k (id desired weight)*k         ColaTopologyAddon::moveTo: one TopologyConstraints, solve() until not interrupted
 //                   RESIZE k (id x y w h)*k                  ColaTopologyAddon::handleResizes (topology::applyResizes)
+//                   DRAG dim nsteps (k (id desired weight)*k)*nsteps
+//                                                            ONE topology::TopologyConstraints(dim, nodes, edges, nullptr, vs, cs) kept alive over
+//                                                            all steps (the usage of libtopology/tests/simple_bend.cpp): per step every node
+//                                                            variable gets desiredPosition = its current centre, weight 1, then the listed
+//                                                            (desired, weight) overrides, then tc.solve() until not interrupted (<= 100 times);
+//                                                            the state is dumped after every step as "op<i>.s<j>" and at the end as "op<i>"
 //                   LAYOUT iters nl (id x y)*nl nr (id x y w h)*nr   ConstrainedFDLayout::run with the addon, PreIteration locks (all
 //                                                            iterations) and resizes (first iteration)
 //                   ENDSCENE
@@ -284,7 +290,7 @@ static int run_scene(const std::vector<std::string> &lines)
     std::vector<topology::Edge*> routes;
     std::vector<cola::Edge> es;
     bool dumped = false;
-    int opno = 0;
+    int opno = 0, stepno = 0;
     char nm[48];
     try {
         for (size_t li = 0; li < lines.size(); ++li) {
@@ -334,6 +340,34 @@ static int run_scene(const std::vector<std::string> &lines)
                 for (size_t i = 0; i < vs.size(); ++i) delete vs[i];
                 for (size_t i = 0; i < cs.size(); ++i) delete cs[i];
                 dump(nm, tn, routes, es);
+            } else if (cmd == "DRAG") {
+                int dim; unsigned nsteps; is >> dim >> nsteps;
+                vpsc::Dim d = dim == 0 ? vpsc::HORIZONTAL : vpsc::VERTICAL;
+                vpsc::Variables vs(n);
+                vpsc::Constraints cs;
+                for (unsigned i = 0; i < n; ++i) vs[i] = new vpsc::Variable(i, rs[i]->getCentreD(d), 1);
+                topology::setNodeVariables(tn, vs);
+                {
+                    topology::TopologyConstraints tc(d, tn, routes, nullptr, vs, cs);
+                    for (unsigned st = 1; st <= nsteps; ++st) {
+                        stepno = (int) st;
+                        for (unsigned i = 0; i < n; ++i) { vs[i]->desiredPosition = rs[i]->getCentreD(d); vs[i]->weight = 1; }
+                        unsigned k; is >> k;
+                        for (unsigned j = 0; j < k; ++j) {
+                            unsigned id; double des, w; is >> id >> des >> w;
+                            vs.at(id)->desiredPosition = des; vs[id]->weight = w;
+                        }
+                        int loopBreaker = 100;
+                        bool interrupted;
+                        do { interrupted = tc.solve(); } while (interrupted && --loopBreaker > 0);
+                        char nm2[64]; snprintf(nm2, sizeof nm2, "%s.s%u", nm, st);
+                        dump(nm2, tn, routes, es);
+                    }
+                    stepno = 0;
+                }
+                for (size_t i = 0; i < vs.size(); ++i) delete vs[i];
+                for (size_t i = 0; i < cs.size(); ++i) delete cs[i];
+                dump(nm, tn, routes, es);
             } else if (cmd == "RESIZE") {
                 unsigned k; is >> k;
                 cola::Resizes rz;
@@ -368,7 +402,8 @@ static int run_scene(const std::vector<std::string> &lines)
         }
 #ifndef NDEBUG
     } catch (vpsc::CriticalFailure &f) {
-        printf("EXC %s | %s:%d | %s | op%d\n", f.expr, f.file, f.line, f.function ? f.function : "?", opno);
+        if (stepno) printf("EXC %s | %s:%d | %s | step%d | op%d\n", f.expr, f.file, f.line, f.function ? f.function : "?", stepno, opno);
+        else printf("EXC %s | %s:%d | %s | op%d\n", f.expr, f.file, f.line, f.function ? f.function : "?", opno);
         snprintf(nm, sizeof nm, "op%d.atexc", opno);
         dump(nm, tn, routes, es);
 #endif
